@@ -33,10 +33,10 @@ var policies = map[string]pbsubstreams.Module_KindStore_UpdatePolicy{
 
 func Policy(c refmodel.Combo) pbsubstreams.Module_KindStore_UpdatePolicy { return policies[c.Policy] }
 
-// MemStore: in-memory dstore with the production extension/compression ("zst"/"zstd").
+// MemStore: in-memory dstore, no compression (a zstd encoder per write costs ~1 ms; compression is dstore's concern and is exercised by C10 and the whole-system checks).
 func MemStore() dstore.Store {
 	u, _ := url.Parse("memory://verif")
-	s, err := dstore.NewMemoryStore(u, "zst", "zstd", true)
+	s, err := dstore.NewMemoryStore(u, "", "", true)
 	if err != nil {
 		panic(err)
 	}
